@@ -165,7 +165,7 @@ PROPS = {
         assumptions=["subscription expiry and the dead-letter sweep are part of the history itself, not of the spliced maintenance (they have client-visible semantics of their own: C14, C06)",
                      "after a rewinding seek that meets deliveries a prune-completed job may have removed, traces are no longer compared (README: acked messages are retained only until pruned); counted in excluded_by_construction",
                      "virtual clock; SQLite only"],
-        quick=dict(checks=350, timeout=1200),
+        quick=dict(checks=800, timeout=1200),
         thorough=dict(checks=500, shards=16, timeout=3000),
     ),
     "C18": dict(
@@ -179,7 +179,7 @@ PROPS = {
               "unexhausted descriptions with the right remaining counts; plus sequences of different request types through the gRPC fault interceptor (parameter extraction, pooled maps) and a fault "
               "injected into the running server hit by concurrent clients; non-trivial = >=2 goroutines and more matching calls than the description's count; distinct by hash of the configuration"),
         assumptions=["schedules are sampled by the Go scheduler under -race (not enumerated)"],
-        quick=dict(checks=120, timeout=900),
+        quick=dict(checks=400, timeout=900),
         thorough=dict(checks=1500, shards=8, timeout=3000),
     ),
     "C10": dict(
